@@ -46,6 +46,12 @@ def c07(ctx):
              "operations equal the reviewed reference: wrong operand kind -> InvalidOperationForType, wrong delimiter kind -> "
              "Invalid{Split,Join}Delimiter in the empty and the non-empty case, non-string element -> InvalidArrayElementForJoin, "
              "radix problems -> InvalidStringToIntegerRadix, parameter on a number cast -> UnexpectedParameter..")
+    rep.rule("C07.R5", "exact text primitives: split takes its pieces from str::split(delimiter) (non-empty delimiter) or str::chars (empty "
+             "delimiter), mapped element-wise and collected -- no other adaptor (filter, skip, take, splitn, split_terminator, trim ..) "
+             "in the chain; join builds its text with a library join (Itertools::join / slice::join) over the array's value iterator "
+             "and the delimiter, or, if written by hand, decides where a separator goes by position only (never by looking at the text "
+             "accumulated so far or at an element)")
+    text_primitives(ctx, "C07.R5")
     rep.rule("C07.R4", "CENSUS restricted to the transformation code (Val::{split,join,cast,try_to_integer,round_*}, mutation_helper, "
              "visit_mutation, visit_rounding): no panicking callee precondition is left open (radix range, code point conversion)")
     em = inherent_methods(F, EXEC)
@@ -192,3 +198,100 @@ def c07(ctx):
         return any(x in p for x in ("Val::split", "Val::join", "Val::cast", "Val::try_to_integer", "Val::round_", "mutation_helper", "visit_mutation", "visit_rounding"))
     ns = cr.census_for(ctx, "C07.R4", "C07", "execution", cr.roots_exec, only=only)
     rep.floor("C07.R4", ns, 2, "census sites in the transformation code (both profiles)")
+
+
+
+def _chain_between(fn, src_bb, allowed_mid, sink_names):
+    """follow the result of the call at src_bb through calls that take it as first argument: (ok, offending callee or None, sink bb)"""
+    cur = src_bb
+    for _ in range(12):
+        nxt = [(bi, t) for bi, t in fn.calls() if bi != cur and t["args"] and any(d[0] == "call" and d[1] == cur for d, _ in origins(fn, t["args"][0]))]
+        if not nxt:
+            return False, "nothing consumes the pieces", None
+        bi, t = nxt[0]
+        nm = t["callee"].get("name")
+        if nm in sink_names:
+            return True, None, bi
+        if nm not in allowed_mid:
+            return False, t["callee"].get("def"), None
+        cur = bi
+    return False, "chain too long", None
+
+
+def text_primitives(ctx, rule):
+    F, rep = ctx.F, ctx.rep
+    sp = F.fn("exec::val::Val::split")
+    jn = F.fn("exec::val::Val::join")
+    if sp is None or jn is None:
+        rep.fail(rule, "anchor", "Val::split / Val::join not found")
+        return
+    rep.analysed(sp)
+    rep.analysed(jn)
+    # ---- split
+    srcs = [(bi, t) for bi, t in sp.calls() if (callee_def(t) or "").startswith(("core::str::<impl str>::", "std::str::<impl str>::", "alloc::str::<impl str>::"))
+            and t["callee"].get("name") not in ("is_empty", "len", "as_bytes", "as_ptr")]
+    names = sorted(t["callee"].get("name") for _, t in srcs)
+    ok = names == ["chars", "split"]
+    rep.ob(rule, "split::sources", ok, "" if ok else "Val::split takes its pieces from %s; the exact primitives are str::split (non-empty delimiter) and str::chars (empty delimiter)" % names,
+           sp.loc(), how="str::split / str::chars")
+    for bi, t in srcs:
+        nm = t["callee"].get("name")
+        good, bad, sink = _chain_between(sp, bi, ("map", "into_iter", "iter"), ("collect", "from_iter", "extend"))
+        rep.ob(rule, "split::chain::" + str(nm), good, "" if good else "between %s and the array built from it stands %s: pieces are dropped, merged or altered" % (nm, bad), sp.loc(t["line"]),
+               how="%s -> map -> collect" % nm)
+        if nm == "split":
+            # the pattern is the delimiter, on the non-empty branch
+            dl = {p for d, p in kind_deep(sp, t["args"][1]) if d == ("param", 2)}
+            ie = [(b2, t2) for b2, t2 in sp.calls() if t2["callee"].get("name") == "is_empty" and (callee_def(t2) or "").startswith("core::str")]
+            from ..guards import _bool_edges, _dominated_by_edge
+            guarded = False
+            for b2, t2 in ie:
+                be = _bool_edges(sp, b2)
+                if be and (be[1] == bi or _dominated_by_edge(sp, bi, be[0], be[1])):
+                    guarded = True
+            ok = bool(dl) and guarded
+            rep.ob(rule, "split::pattern-is-the-delimiter", ok, "" if ok else ("the pattern handed to str::split is not the delimiter" if not dl else "str::split is not confined to the branch where the delimiter is non-empty"),
+                   sp.loc(t["line"]), how="split(delim) under !delim.is_empty()")
+    # ---- join
+    lib = [(bi, t) for bi, t in jn.calls() if t["callee"].get("name") == "join" and (callee_def(t) or "") in ("itertools::Itertools::join", "alloc::slice::<impl [T]>::join", "std::slice::<impl [T]>::join", "alloc::slice::Join::join")]
+    if lib:
+        bi, t = lib[0]
+        deep = kind_deep(jn, t["args"][0])
+        from_iter = any(d[0] == "call" and jn.term(d[1])["callee"].get("name") == "val_iter" for d, _ in deep)
+        mids = {jn.term(d[1])["callee"].get("name") for d, _ in deep if d[0] == "call"} - {"val_iter", "deref", "map", "into_iter", "iter"}
+        dl = {p for d, p in kind_deep(jn, t["args"][1]) if d == ("param", 2)} if len(t["args"]) > 1 else set()
+        ok = len(lib) == 1 and from_iter and not mids and bool(dl)
+        why = ""
+        if not ok:
+            why = ("the joined sequence is not the array's value iterator" if not from_iter else
+                   ("the elements pass through %s before being joined" % sorted(mids)) if mids else "the separator is not the delimiter")
+        rep.ob(rule, "join::library-join(val_iter, delim)", ok, why, jn.loc(t["line"]), how=callee_def(t))
+    else:
+        # written by hand: every append of the delimiter is controlled by position only
+        bodies = F.with_closures(jn)
+        n = 0
+        for body in bodies:
+            for bi, t in body.calls():
+                if t["callee"].get("name") in ("push_str", "push", "add_assign", "extend", "write_str") and len(t["args"]) > 1:
+                    if not any(d == ("param", 2) or (d[0] == "param" and body.kind == "closure") for d, p in kind_deep(body, t["args"][1])):
+                        continue
+                    if not any(d == ("param", 2) for d, p in kind_deep(body, t["args"][1])):
+                        continue
+                    n += 1
+                    bad = None
+                    for sb in range(len(body.blocks)):
+                        st = body.term(sb)
+                        if st["k"] != "switch" or not body.dominates(sb, bi) or sb == bi:
+                            continue
+                        for d, p in kind_deep(body, st["on"]):
+                            if d[0] == "call":
+                                c2 = body.term(d[1])["callee"]
+                                if c2.get("name") in ("is_empty", "len", "ends_with", "starts_with", "last", "chars") and (c2.get("def") or "").startswith(("std::string::String::", "core::str::", "alloc::string::String::")):
+                                    # does it look at the accumulator or an element (not at the delimiter)?
+                                    if not any(dd == ("param", 2) for dd, pp in kind_deep(body, body.term(d[1])["args"][0])):
+                                        bad = c2.get("def")
+                    rep.ob(rule, "join::separator-by-position#%d" % (n - 1), bad is None,
+                           "" if bad is None else "whether a separator is written depends on %s of the text built so far (or of an element): empty leading elements lose their separators" % bad,
+                           body.loc(t["line"]), how="separator controlled by position")
+        if n == 0:
+            rep.fail(rule, "join::shape", "neither a library join nor a recognisable hand-written joining loop in Val::join: exactness of the joined text cannot be shown", jn.loc())
